@@ -11,7 +11,11 @@ Models: `Juniper/Model/XTime.lean` (defined in terms of `Juniper.Gen.XTime`, reg
 
 All theorems are *partial by nature* in one respect that no model of the code can remove: that the
 Go runtime never fires a timer (or a context deadline) early and that `time.Now` is monotone is part
-of the LTS (`fire`/`arm` are enabled only when `due ≤ now`, `advance` only moves forward), i.e. trusted.
+of the LTS (`fire`/`arm` are enabled only when `due ≤ now`, `advance` only moves forward), i.e. trusted;
+so is the mutual exclusion `sync.Mutex` gives the critical sections of `JitterTicker` (each is one
+label; the statement skeletons that justify this are regenerated and consumed, see
+`no_tick_after_stop`). `SleepContext`'s durations are compared, never added: its arithmetic cannot
+overflow. The arithmetic of `JitterTicker.schedule` is modelled over int64 / uint64 (see below).
 -/
 namespace Juniper.Props.C20
 open Juniper.Facts Juniper.Gen.XTime Juniper.Model.XTime
@@ -196,7 +200,14 @@ example : ∃ s0 s, create 0 5 2 3 = some s0 ∧ TReachP s0 s ∧ s.sent = [(13,
 /-- *No tick is sent after Stop returns*: after a `Stop` on a running ticker (reachable inside the
 protocol), no run of labels other than `Reset` — clock advances, the firing of a timer that raced
 with the `Stop`, the callback goroutine it started, receives, even a second `Stop` — puts a tick
-into the channel: the log of sent ticks stays what it was when `Stop` was called. -/
+into the channel: the log of sent ticks stays what it was when `Stop` was called.
+
+That the callback (lock; `t.gen == gen`; send; re-arm; unlock), `Stop` and `Reset` are single labels
+is justified by the regenerated statement lists of the three critical sections having exactly that
+shape (`cb_skeleton`, `stop_skeleton`, `reset_skeleton`, consumed by `tinv_step`): with the test
+hoisted out of the lock, the send moved behind `Unlock`, or `t.gen++` undone in `Stop`, this theorem
+no longer compiles. What the mutex itself guarantees is trusted (Go runtime) and searched by the
+real-threads phase of the harness. -/
 theorem no_tick_after_stop {now d j r : Int} {s0 s s1 s2 : TState} (hd : 0 < d) (hj0 : 0 ≤ j) (hj : j < d)
     (hmax : d ≤ maxInt64) (hc : create now d j r = some s0) (hr : TReachP s0 s) (hrun : s.stopped = false)
     (hstop : tstep s .stop = some s1) (hafter : RunNoReset s1 s2) :
